@@ -576,8 +576,12 @@ func (x *Exec) callStatic(fn *ssa.Function, args []Value) []Value {
 		if pkg == nil || pkg.Func(r[i+1:]) == nil {
 			efail("redirect target %s not found", r)
 		}
-		x.e.stubs[name+" (replaced by harness stub "+r[i+1:]+")"] = true
-		return x.callFunction(pkg.Func(r[i+1:]), args)
+		x.e.stubs[name+" (replaced by "+r[i+1:]+")"] = true
+		tgt := pkg.Func(r[i+1:])
+		if _, again := x.e.Redirect[tgt.String()]; again {
+			efail("redirect chain at %s", r)
+		}
+		return x.callStatic(tgt, args)
 	}
 	if fn.Synthetic == "package initializer" {
 		x.e.ensureInit(x, fn.Pkg)
